@@ -22,6 +22,8 @@ pub const HISTORIES: &[&str] = &[
     "pieces_built_from_singletons_then_concatenated",
     "sliding_window_push_back_pop_front",
     "build_then_random_remove_and_reinsert",
+    "chunks_built_on_fresh_threads_then_concatenated",
+    "built_on_a_worker_thread_then_edited_on_this_one",
 ];
 
 pub const STRIDES: &[&str] = &["none", "stride", "bursts", "lock_step_second_treap"];
@@ -131,6 +133,17 @@ pub fn probe_paths(t: &Treap<Plain>, pos: usize) -> (usize, bool, bool) {
         depth_max = depth_max.max(depth);
     }
     (depth_max, lt, gt)
+}
+
+/// Used inside worker threads: has the piece being built already left the bound (or lost its
+/// heap order)?  The worker then stops early and the caller's next checkpoint reports it.
+fn worker_gone_bad(t: &Treap<Plain>) -> bool {
+    let size = t.size();
+    if size == 0 {
+        return false;
+    }
+    let (d, lt, gt) = probe_paths(t, size - 1);
+    (lt && gt) || (d as f64) > 5.0 * ((size + 1) as f64).log2() + 20.0
 }
 
 fn in_order_keys(t: &Treap<Plain>) -> Vec<u32> {
@@ -383,6 +396,88 @@ pub fn run_history(history: usize, n: usize, mode: usize, stride: usize, seed: u
                 checkpoint!(t, false);
             }
         }
+        14 => {
+            // nodes are Send: pieces built on OTHER threads (one after the other, no concurrency)
+            // and handed over are as legitimate an operation history as any; whatever ties a
+            // node's priority to the thread that created it shows up here
+            let chunk = [8usize, 50, 200, 2000][(seed % 4) as usize].min(n.max(1));
+            let mut key = 0u32;
+            while (key as usize) < n && violation.is_none() {
+                let len = chunk.min(n - key as usize);
+                let start = key;
+                let (mode_c, stride_c, fseed) = (f.mode, f.stride, seed ^ key as u64);
+                let (piece, draws) = std::thread::Builder::new()
+                    .stack_size(64 << 20)
+                    .spawn(move || {
+                        let mut g = Foreign { mode: mode_c, stride: stride_c, rng: Rng::new(fseed), draws: 0 };
+                        let mut p: Treap<Plain> = Treap::new();
+                        for j in 0..len {
+                            g.before_own_draw();
+                            let at = p.size();
+                            p.insert_at(at, Plain::new(start + j as u32));
+                            if j % 64 == 63 && worker_gone_bad(&p) {
+                                break;
+                            }
+                        }
+                        (p, g.draws)
+                    })
+                    .expect("spawn")
+                    .join()
+                    .expect("worker");
+                f.draws += draws;
+                key += len as u32;
+                inserted += piece.size();
+                if piece.size() < len {
+                    // the worker stopped early: report on the piece itself
+                    t = piece;
+                    checkpoint!(t, true);
+                    break;
+                }
+                last_pos = t.size();
+                t = Treap::merge(std::mem::replace(&mut t, Treap::new()), piece);
+                checkpoint!(t, false);
+            }
+        }
+        15 => {
+            // built on a worker thread, then edited here (a thread whose generator is fresh)
+            let m = (n * 9 / 10).max(8);
+            let (mode_c, stride_c) = (f.mode, f.stride);
+            let (built, draws) = std::thread::Builder::new()
+                .stack_size(1 << 30)
+                .spawn(move || {
+                    let mut g = Foreign { mode: mode_c, stride: stride_c, rng: Rng::new(seed ^ 0xAB), draws: 0 };
+                    let mut p: Treap<Plain> = Treap::new();
+                    for j in 0..m {
+                        g.before_own_draw();
+                        let at = p.size();
+                        p.insert_at(at, Plain::new(j as u32));
+                        if j % 64 == 63 && worker_gone_bad(&p) {
+                            break;
+                        }
+                    }
+                    (p, g.draws)
+                })
+                .expect("spawn")
+                .join()
+                .expect("worker");
+            f.draws += draws;
+            t = built;
+            inserted += t.size();
+            checkpoint!(t, true);
+            for i in 0..(n - m.min(n)) {
+                if violation.is_some() {
+                    break;
+                }
+                let k = match i % 3 {
+                    0 => 0,
+                    1 => t.size(),
+                    _ => rng.usize_below(t.size() + 1),
+                };
+                { last_pos = k; ins(&mut t, last_pos, (m + i) as u32, &mut f); }
+                inserted += 1;
+                checkpoint!(t, false);
+            }
+        }
         12 => {
             // sliding window: push back, and once the window is full pop the front
             let w = (n / 4).max(8);
@@ -472,7 +567,7 @@ pub fn run_history(history: usize, n: usize, mode: usize, stride: usize, seed: u
         let _ = key_sum;
         functional_ok = key_count == inserted && t.size() == inserted;
         let exact: Option<Vec<u32>> = match history {
-            0 | 5 | 6 | 7 | 8 | 10 | 11 => Some((0..keys.len() as u32).collect()),
+            0 | 5 | 6 | 7 | 8 | 10 | 11 | 14 => Some((0..keys.len() as u32).collect()),
             1 => Some((0..keys.len() as u32).rev().collect()),
             _ => None,
         };
